@@ -76,6 +76,33 @@ def make_job_net(rng, idx, profile):
     return pipe_common.make_net(rng, idx, profile)
 
 
+def plan_offsets(model_bytes):
+    """arena offset per tensor index of subgraph 0, one list per OfflineMemoryAllocation entry of the file (plain walker)"""
+    import struct
+
+    m = fbwalk.parse(model_bytes)
+    n = len(m["subgraphs"][0]["tensors"])
+    out = []
+    for name, b in m["metadata_list"]:
+        if name == "OfflineMemoryAllocation":
+            raw = m["buffers"][b] or b""
+            vals = struct.unpack("<%di" % (len(raw) // 4), raw[:len(raw) // 4 * 4])
+            out.append(list(vals[3:3 + n]))
+    return out
+
+
+def verbatim_line(first_out, final_out):
+    """`ethosuverbatim` request: the compiled input of the later generations against the final file (same graph tokens as
+    `preserve`), plus the arena offsets the two files assign"""
+    import preserve_dump
+
+    line = "ethosuverbatim" + preserve_dump.preserve_line(first_out, final_out)[0][len("preserve"):]
+    sp, op = plan_offsets(first_out), plan_offsets(final_out)
+    if sp:
+        line += " s.plan=" + ",".join(map(str, sp[-1])) + " o.plans=" + ";".join(",".join(map(str, p)) for p in op)
+    return line
+
+
 def _worker(job):
     seed, idx, profile = job
     import netgen
@@ -107,7 +134,7 @@ def _worker(job):
             out["line"] = line
             if gen2 and out.get("gen_count", 1) > 1:
                 # the compiled input of the later generations against the final file (same graph tokens, other request)
-                out["verbatim_line"] = "ethosuverbatim" + preserve_dump.preserve_line(first_out, res.out_model)[0][len("preserve"):]
+                out["verbatim_line"] = verbatim_line(first_out, res.out_model)
             out["walker_view"] = preserve_dump.walker_view(o)
             d = tempfile.mkdtemp(prefix="velaverif_rr_")
             p = os.path.join(d, "out.tflite")
@@ -292,7 +319,7 @@ def replay(ck, path):
         if res.status != "ok" or res.out_model is None:
             ck.finish({"evaluations": 1, "distinct_nontrivial": 0, "rule": "replay"})
     if r.get("gen_opts"):
-        vb = "ethosuverbatim" + preserve_dump.preserve_line(first_out, res.out_model)[0][len("preserve"):]
+        vb = verbatim_line(first_out, res.out_model)
         vans = ck.model([vb], parallel=False)[0]
         print("ethosuverbatim:", vans)
         if vans.startswith("bad"):
